@@ -3,6 +3,7 @@ import Operon.Lemmas.C01Work
 import Operon.Lemmas.C01Reach
 import Operon.Lemmas.C01VisitsReach
 import Operon.Lemmas.MitoBox
+import Operon.Model.MitoText
 import Operon.Gen.MitoFacts
 /-!
 # C01 — the safe evaluator is confined to its allow-list, total, and resource-bounded
@@ -455,6 +456,40 @@ theorem c01_container_validation_raises_witness :
 
 /-- `c01_total_delivered`: the container facts of the current source -/
 example : Gen.box.builds = true := by decide
+
+/-! ### … for every TEXT, whatever the entry point does to it before its readers see it (`Model/MitoText.lean`)
+
+The quantifier of the property is "for all strings".  `metabolizeText` is the engine as a function of the caller's string:
+`rd` is what CPython's `len` / parser / literal readers / console make of a string, `detect` the pathway heuristic, and the
+readers see the caller's string or `f` of it (`PreKind`) for an ARBITRARY `f` — a translation of typographic operators, a
+normalisation, a truncation.  Totality and confinement do not depend on which string is read. -/
+
+/-- `metabolize` never raises, for every text, every reader, every pathway heuristic and every rewriting of the text in
+    front of the readers. -/
+theorem c01_total_for_every_text {Text : Type} (rd : Text → Inp) (detect : Text → Pathway) (k : PreKind) (f : Text → Text)
+    (T : Tables) (env : Env) (cfg : Cfg) (box : Box) (hp : cfg.printInTry = true) (hd : cfg.dispatchInTry = true)
+    (hb : box.builds = true) (latched : Bool) (text : Text) (forced : Option Pathway) :
+    (metabolizeText rd detect k f T env cfg box latched text forced).2 ≠ .raised :=
+  c01_total_delivered T env cfg box hp hd hb latched (detect (preOf k f text)) (rd (preOf k f text)) forced
+
+/-- Confinement for every text and every rewriting: whatever string the readers end up with, every interaction of the
+    call is a walker action allowed by the tables or the body of a registered, permitted tool (at most one, last, on the
+    tool pathway only). -/
+theorem c01_confined_for_every_text {Text : Type} (rd : Text → Inp) (detect : Text → Pathway) (k : PreKind)
+    (f : Text → Text) (T : Tables) (env : Env) (cfg : Cfg) (box : Box) (latched : Bool) (text : Text)
+    (forced : Option Pathway) :
+    (∀ a ∈ (metabolizeText rd detect k f T env cfg box latched text forced).1, AllowedEntry T env cfg a) ∧
+    (∀ pre tn as ks rest, (metabolizeText rd detect k f T env cfg box latched text forced).1
+        = pre ++ Act.tool tn as ks :: rest →
+        rest = [] ∧ forced.getD (detect (preOf k f text)) = .oxidative ∧ ∀ a ∈ pre, Allowed T env a) :=
+  c01_metabolize_confined T env cfg latched (detect (preOf k f text)) (rd (preOf k f text)) forced
+
+/-- `c01_total_for_every_text` / `c01_confined_for_every_text`: texts = strings, a reader that reads everything as the
+    unlisted name `zz`, a rewriting that appends `!` — a failure result, nothing executed -/
+example : metabolizeText (fun (_ : String) => (⟨2, some (.name "zz"), none, false⟩ : Inp)) (fun _ => .glycolysis) .rewrites
+    (fun s => s ++ "!") ⟨[], [], [], [], []⟩ ⟨fun _ => .h 0, fun _ _ => .error "", fun _ => .error "", fun _ _ _ => .error "",
+      fun _ _ _ => .error ""⟩ ⟨10000, true, false, [], none, true, true, true⟩ ⟨true, true, true⟩ false "zz" none
+    = ([], .result false none true (some .glycolysis)) := by rfl
 
 /-! ### Resource clause -/
 
